@@ -1,9 +1,33 @@
 CFG = dict(
      claimed=True,
      race=True,
-     rule="TODO",
-     assumptions=[],
-     technique="TODO",
-     level_text="TODO",
-     level_note="TODO",
+     rule="Case = one drawn cast of 8..32 workers (drawn up front: kind, repetitions 1..6, seed, yields, microsecond sleeps and the kind's "
+          "parameters): enc/v1 Encrypt->Decrypt pipelines (message length classes 0, 1, small, 64 KiB x {1,2,3} -1/0/+1, up to 200000; own "
+          "message, cipher, key name 1..330 characters and wrapped-key padding 0..1500 bytes so that every header has a different size; xor or "
+          "real A256KW wrap callbacks; kit Encrypt -> kit Decrypt, or a document of the independent reference encoder under the worker's own "
+          "32-byte file key -> kit Decrypt; tampered MAC / failing or wrong unwrap / damaged last segment, whose FAILURES are results too; "
+          "chunked sources and consumers; an unwrap callback that yields and sleeps between header parsing and MAC verification), "
+          "byteslicepool Get/fill/verify/Resize/Put cycles on the cast's shared pool, crypto.Encrypt/Decrypt over the 19 symmetric "
+          "algorithms, SignPrivateKey/VerifyPublicKey over the 10 signature algorithms (Ed25519 keys of the worker's own), RSA "
+          "EncryptPublicKey/DecryptPrivateKey, cron.ParseStandard (package-level parser) or an own cron.Parser + chained Next + "
+          "cron.PrintfLogger, logger.NewLogger by distinct names with own output buffers plus same-name and cast-wide shared-name look-ups. "
+          "Every worker first runs ALONE; then all run at once behind a start barrier (1..3 rounds, GOMAXPROCS 16; thorough also 2, 4, 8) "
+          "in a binary built with -race. Non-trivial: at least two pool-sharing pipelines (two enc pipelines on BufPool, or two "
+          "byteslicepool workers) were inside a repetition at the same time, measured with an active-counter. Distinct by the full cast "
+          "encoding. Section TestPinnedHeaderBufferReuse: rounds of a fixed cast of 24 enc workers (counted as one distinct case).",
+     assumptions=["Go runtime, sync/atomic, the race detector (a data race report anywhere in the process is a violation) and rapid v1.3.0 are correct",
+                  "which interleavings occur is decided by the Go scheduler and the hardware: schedule coverage is statistical, a failing cast may not fail again "
+                  "(replay re-runs the saved cast up to 40 times; the cast printed before the concurrent phase is the artefact)",
+                  "independent objects: each worker owns its message, keys, jwk.Key objects, callbacks, parser, output buffers and its named logger; "
+                  "logger-wide settings that are shared by design (ApplyOptionsToLoggers) are not exercised; the cast-wide shared logger name is only looked up",
+                  "byteslicepool: the doc comment of Get does not promise an empty slice, so len(Get()) is only compared with the worker's own solo run; "
+                  "no zeroing claim; a slice is the worker's own between Get and Put",
+                  "results that are random by specification (file key, PSS/ECDSA signatures, RSA ciphertexts) are compared through their verification / decryption, not byte for byte"],
+     technique="property-based stress-differential testing (rapid-drawn casts, real goroutines, race detector): each worker's concurrent results "
+               "are compared with its own solo run; an independent reference decoder (refenc) and the standard library verify what kit produced concurrently",
+     level_text="Generated-input search over casts of concurrent pipelines on the real code, under the race detector. Oracle: per-repetition "
+                "result (plaintext digest, error text, ciphertext length, reference-decoder verdict, signature verification, Next instants, log lines, "
+                "Get length and slice content) equal to the same worker's solo result; no panic in any worker; no data race report. "
+                "Schedules are sampled (yields and sleeps at the points where pooled buffers are outstanding, 16 processors), not enumerated: no absence claim.",
+     level_note="Trusts the Go runtime, the race detector, rapid and the harness' reference encoder/decoder (refenc, self-checked against the repository's fixtures).",
      timeout_quick=900, timeout_thorough=3000)
